@@ -254,6 +254,7 @@ class ADInterpreter(Pytree):
         jaxpr: Jaxpr,
         consts: list[ArrayLike],
         flat_duals: list[Dual],
+        final_kont: Any = None,
     ):
         dual_env = Environment()
         jax_util.safe_map(dual_env.write, jaxpr.constvars, Dual.tree_pure(consts))
@@ -333,7 +334,7 @@ class ADInterpreter(Pytree):
                         pure_env = Dual.tree_primal(dual_env)
 
                         # Create dual continuation for the computation after the cond_p.
-                        def _cond_dual_kont(dual_tree: list[Any]):
+                        def _cond_dual_kont(key, dual_tree: list[Any]):
                             dual_leaves = Dual.tree_pure(dual_tree)
                             return eval_jaxpr_iterate_dual(
                                 key,
@@ -389,36 +390,46 @@ class ADInterpreter(Pytree):
                     eqn.outvars,
                     Dual.dual_tree(primal_outs, tangent_outs),
                 )
-            (out_dual,) = jax_util.safe_map(dual_env.read, jaxpr.outvars)
-            if not isinstance(out_dual, Dual):
-                out_dual = Dual(out_dual, jnp.zeros_like(out_dual))
-            return out_dual
+            out_duals = jax_util.safe_map(dual_env.read, jaxpr.outvars)
+            out_duals = [
+                d if isinstance(d, Dual) else Dual(d, jnp.zeros_like(d))
+                for d in out_duals
+            ]
+            if final_kont is None:
+                (out_dual,) = out_duals
+                return out_dual
+            return final_kont(key, out_duals)
 
         return eval_jaxpr_iterate_dual(
             key, jaxpr.eqns, dual_env, jaxpr.invars, flat_duals
         )
 
     @staticmethod
-    def forward_mode(f, kont=lambda v: v):
+    def forward_mode(f, kont=lambda key, v: v):
         def _inner(key, dual_tree: DualTree):
             primals = jtu.tree_leaves(Dual.tree_primal(dual_tree))
             closed_jaxpr, (_, _, out_tree) = stage(f)(*primals)
             jaxpr, consts = closed_jaxpr.jaxpr, closed_jaxpr.literals
             dual_leaves = Dual.tree_leaves(Dual.tree_pure(dual_tree))
-            out_duals = ADInterpreter.eval_jaxpr_adev(
+
+            # The continuation of the whole function runs at the end of the jaxpr, so that
+            # it is part of the continuation seen by every sample site inside `f`.
+            def _final(key, out_duals):
+                out_tree_def = out_tree()
+                tree_primals, tree_tangents = Dual.tree_unzip(out_duals)
+                out_dual_tree = Dual.dual_tree(
+                    jtu.tree_unflatten(out_tree_def, tree_primals),
+                    jtu.tree_unflatten(out_tree_def, tree_tangents),
+                )
+                return kont(key, out_dual_tree)
+
+            return ADInterpreter.eval_jaxpr_adev(
                 key,
                 jaxpr,
                 consts,
                 dual_leaves,
+                _final,
             )
-            out_tree_def = out_tree()
-            tree_primals, tree_tangents = Dual.tree_unzip(out_duals)
-            out_dual_tree = Dual.dual_tree(
-                jtu.tree_unflatten(out_tree_def, tree_primals),
-                jtu.tree_unflatten(out_tree_def, tree_tangents),
-            )
-            vs = kont(out_dual_tree)
-            return vs
 
         # Force coercion to JAX arrays.
         def maybe_array(v):
@@ -449,9 +460,9 @@ class ADEVProgram(Pytree):
         def adev_jvp(f):
             @wraps(f)
             def wrapped(dual_tree: DualTree):
-                return ADInterpreter.forward_mode(self.source, dual_kont)(
-                    key, dual_tree
-                )
+                return ADInterpreter.forward_mode(
+                    self.source, lambda _key, v: dual_kont(v)
+                )(key, dual_tree)
 
             return wrapped
 
